@@ -1027,6 +1027,16 @@ pub struct XmlDocument {
     document: info::XmlNode<info::XmlDocument>,
 }
 
+/// Two nodes belong to the same document when they refer to the same document item,
+/// not when their documents have equal content.
+fn same_document(a: &Option<XmlDocument>, b: &Option<XmlDocument>) -> bool {
+    match (a, b) {
+        (Some(a), Some(b)) => Rc::ptr_eq(&a.document, &b.document),
+        (None, None) => true,
+        _ => false,
+    }
+}
+
 impl Document for XmlDocument {
     fn doc_type(&self) -> Option<XmlDocumentType> {
         self.document
@@ -1190,12 +1200,12 @@ impl NodeMut for XmlDocument {
         new_child: XmlNode,
         ref_child: Option<&XmlNode>,
     ) -> error::Result<XmlNode> {
-        if Some(self.clone()) != new_child.owner_document() {
+        if !same_document(&Some(self.clone()), &new_child.owner_document()) {
             return Err(error::DomException::WrongDocumentErr)?;
         }
 
         let value = if let Some(r) = ref_child {
-            if Some(self.clone()) != r.owner_document() {
+            if !same_document(&Some(self.clone()), &r.owner_document()) {
                 return Err(error::DomException::WrongDocumentErr)?;
             }
 
@@ -1219,7 +1229,7 @@ impl NodeMut for XmlDocument {
     }
 
     fn remove_child(&self, old_child: &XmlNode) -> error::Result<XmlNode> {
-        if Some(self.clone()) != old_child.owner_document() {
+        if !same_document(&Some(self.clone()), &old_child.owner_document()) {
             return Err(error::DomException::WrongDocumentErr)?;
         }
 
@@ -1591,12 +1601,12 @@ impl NodeMut for XmlAttr {
         new_child: XmlNode,
         ref_child: Option<&XmlNode>,
     ) -> error::Result<XmlNode> {
-        if self.owner_document() != new_child.owner_document() {
+        if !same_document(&self.owner_document(), &new_child.owner_document()) {
             return Err(error::DomException::WrongDocumentErr)?;
         }
 
         let value = if let Some(r) = ref_child {
-            if self.owner_document() != r.owner_document() {
+            if !same_document(&self.owner_document(), &r.owner_document()) {
                 return Err(error::DomException::WrongDocumentErr)?;
             }
 
@@ -1620,7 +1630,7 @@ impl NodeMut for XmlAttr {
     }
 
     fn remove_child(&self, old_child: &XmlNode) -> error::Result<XmlNode> {
-        if self.owner_document() != old_child.owner_document() {
+        if !same_document(&self.owner_document(), &old_child.owner_document()) {
             return Err(error::DomException::WrongDocumentErr)?;
         }
 
@@ -1771,7 +1781,7 @@ impl ElementMut for XmlElement {
     }
 
     fn set_attribute_node(&self, new_attr: XmlAttr) -> error::Result<Option<XmlAttr>> {
-        if self.owner_document() != new_attr.owner_document() {
+        if !same_document(&self.owner_document(), &new_attr.owner_document()) {
             return Err(error::DomException::WrongDocumentErr)?;
         }
 
@@ -1895,12 +1905,12 @@ impl NodeMut for XmlElement {
         new_child: XmlNode,
         ref_child: Option<&XmlNode>,
     ) -> error::Result<XmlNode> {
-        if self.owner_document() != new_child.owner_document() {
+        if !same_document(&self.owner_document(), &new_child.owner_document()) {
             return Err(error::DomException::WrongDocumentErr)?;
         }
 
         let value = if let Some(r) = ref_child {
-            if self.owner_document() != r.owner_document() {
+            if !same_document(&self.owner_document(), &r.owner_document()) {
                 return Err(error::DomException::WrongDocumentErr)?;
             }
 
@@ -1924,7 +1934,7 @@ impl NodeMut for XmlElement {
     }
 
     fn remove_child(&self, old_child: &XmlNode) -> error::Result<XmlNode> {
-        if self.owner_document() != old_child.owner_document() {
+        if !same_document(&self.owner_document(), &old_child.owner_document()) {
             return Err(error::DomException::WrongDocumentErr)?;
         }
 
